@@ -42,8 +42,9 @@ def base_master(rng, n=None, kinds=("line", "curve"), anchors=True, classes=None
     return desc
 
 
-def make_designspace(rng, masters, lib="ufoLib2", axes=None, locations=None, instances=True):
-    """masters: list of descs.  One 'Weight' axis unless axes/locations are given."""
+def make_designspace(rng, masters, lib="ufoLib2", axes=None, locations=None, instances=True, vf_info=None):
+    """masters: list of descs.  One 'Weight' axis unless axes/locations are given.
+    vf_info: list of public.fontInfo override dicts -> a format-5 document with one <variable-font> per dict."""
     from fontTools.designspaceLib import DesignSpaceDocument, AxisDescriptor, SourceDescriptor, InstanceDescriptor
     ds = DesignSpaceDocument()
     if axes is None:
@@ -74,11 +75,18 @@ def make_designspace(rng, masters, lib="ufoLib2", axes=None, locations=None, ins
         inst.location = dict(locations[-1]) if len(locations) == 1 else {k: (locations[0][k] + locations[-1][k]) / 2 for k in locations[0]}
         inst.name = "inst0"
         ds.addInstance(inst)
+    if vf_info:
+        from fontTools.designspaceLib import VariableFontDescriptor, RangeAxisSubsetDescriptor
+        ds.formatVersion = "5.0"
+        for k, ov in enumerate(vf_info):
+            ds.addVariableFont(VariableFontDescriptor(name="VF%d" % k,
+                                                      axisSubsets=[RangeAxisSubsetDescriptor(name=a.name) for a in ds.axes],
+                                                      lib={"public.fontInfo": dict(ov)} if ov is not None else {}))
     return ds, fonts
 
 
-def family(rng, nmasters=2, lib="ufoLib2", **kw):
+def family(rng, nmasters=2, lib="ufoLib2", vf_info=None, **kw):
     base = base_master(rng, **kw)
     masters = [base] + [perturb(rng, base, k) for k in range(1, nmasters)]
-    ds, fonts = make_designspace(rng, masters, lib)
+    ds, fonts = make_designspace(rng, masters, lib, vf_info=vf_info)
     return ds, fonts, masters
